@@ -450,7 +450,7 @@ impl Property for C03 {
         }
 
         // (c) generated files
-        let cases = ctx.tier.pick(60_000, 1_200_000);
+        let cases = ctx.tier.pick(200_000, 1_200_000);
         ctx.run_streams("c03-generated", cases, 420, |ctx, bytes| {
             let mut c = Choices::new(bytes);
             let trivia = c.chance(128);
